@@ -978,8 +978,20 @@ class PendingFunctionDef(_PendingCompoundStmt[FunctionDef]):
         )
 
         if self.internal_nsp.zero_arg_super_used:
-            # inject free __class__
-            body.append(Name(id="__class__", ctx=Load()))
+            # inject free __class__; mentioned, not loaded: the cell is empty
+            # while the class body runs, and the function may be called there
+            body.append(
+                Lambda(
+                    args=arguments(
+                        posonlyargs=[],
+                        args=[],
+                        kwonlyargs=[],
+                        kw_defaults=[],
+                        defaults=[],
+                    ),
+                    body=Name(id="__class__", ctx=Load()),
+                )
+            )
 
         if self.internal_nsp.flow_ctrl_return_used:
             body.append(
